@@ -74,7 +74,7 @@ pub fn judge_admitted(
     }
 
     if model.unsettled.contains_key(&t.id) {
-        let forgot = model.cache_forgot(&Key::Tx(t.id), cap);
+        let forgot = model.cache_forgot(&Key::Tx(t.id));
         out.push(adm(
             format!("c19 admitted_duplicate_id state=handed_out_or_preconfirmed cache_forgot={forgot}"),
             None,
@@ -131,7 +131,7 @@ pub fn judge_admitted(
             continue;
         }
         if let Some(holder) = model.handed_out_coin(u) {
-            let forgot = model.cache_forgot(&Key::Coin(*u), cap);
+            let forgot = model.cache_forgot(&Key::Coin(*u));
             out.push(adm(
                 if forgot { "c19 admitted_handed_out_input cache_forgot=true".to_string() } else { "c19 admitted_handed_out_input kind=coin cache_forgot=false".to_string() },
                 None,
@@ -213,7 +213,7 @@ pub fn judge_admitted(
     if cfg.utxo_validation {
         for m in &t.msgs {
             if let Some(holder) = model.handed_out_msg(&m.nonce) {
-                let forgot = model.cache_forgot(&Key::Msg(m.nonce), cap);
+                let forgot = model.cache_forgot(&Key::Msg(m.nonce));
                 out.push(adm(
                     if forgot { "c19 admitted_handed_out_input cache_forgot=true".to_string() } else { "c19 admitted_handed_out_input kind=message cache_forgot=false".to_string() },
                     None,
@@ -298,7 +298,11 @@ pub fn judge_admitted(
                 }
                 if !ratio_gt(t.tip, t.max_gas, tip, gas) {
                     out.push(adm(
-                        "c19 admitted_without_strictly_better_ratio",
+                        if model.stale_stats.contains(&k.id) {
+                            "c19 admitted_without_strictly_better_ratio subtree_stats_stale_after_child_commit"
+                        } else {
+                            "c19 admitted_without_strictly_better_ratio"
+                        },
                         None,
                         format!(
                             "{me} (tip/gas {}/{}) admitted although it collides on {why} with {} whose subtree ({} txs) has tip/gas {tip}/{gas}",
@@ -347,7 +351,7 @@ pub fn is_plain(t: &TxInfo, before: &Snap, chain: &ChainState, model: &Model, cf
         if chain.coins.get(u) != Some(f)
             || model.handed_out_coin(u).is_some()
             || before.contains(u.tx_id())
-            || model.spent_log.contains(&Key::Coin(*u))
+            || model.cache.ever.contains(&Key::Coin(*u))
         {
             return false;
         }
@@ -360,7 +364,7 @@ pub fn is_plain(t: &TxInfo, before: &Snap, chain: &ChainState, model: &Model, cf
                     && cm.amount == m.amount => {}
             _ => return false,
         }
-        if model.handed_out_msg(&m.nonce).is_some() || model.spent_log.contains(&Key::Msg(m.nonce)) {
+        if model.handed_out_msg(&m.nonce).is_some() || model.cache.ever.contains(&Key::Msg(m.nonce)) {
             return false;
         }
     }
